@@ -18,7 +18,7 @@ inline LMap gen_lmap(Tape& t, size_t maxTiles, unsigned minLg = 0) {
 	m.versionTag = t.pick<uint32_t>({0x1010, 0x1011, 0x1011, 0x1012, 0x2000, 0xFFFFFFFF, 0x7FFFFFFF, 0x80000000});
 	if (t.below(5) == 0) m.versionTag = 0x1010 + t.u16();
 	m.savedFlag = t.pick<int32_t>({0, 0, 1, 2, -1, 256, int32_t(0x80000000)}); if (t.below(6) == 0) m.savedFlag = int32_t(t.u32());
-	m.lgWidth = minLg + uint32_t(t.below(11 - minLg));
+	m.lgWidth = minLg + uint32_t(t.below(11 - minLg)); if (maxTiles >= 8192 && t.below(12) == 0) m.lgWidth = 11 + uint32_t(t.below(2));   // wider than any game map
 	uint64_t w = uint64_t(1) << m.lgWidth;
 	uint64_t maxH = maxTiles / w; if (maxH > 300) maxH = 300;
 	m.height = uint32_t(t.below(maxH + 1));
